@@ -41,11 +41,25 @@ CONSTANT Deviations
 \*   "HashOrderedFrames"               FrameSet was a HashMap                       (fixed 8d2f8a3)
 \*   "ExpandSeqDropsCalibrationQubits" expand_defgate_sequences: cache = body only  (fixed 25ee1ee)
 \*   "CloneDropsCalibrationQubits"     clone_without_body_instructions: empty cache (KNOWN FINDING 16)
+\*   "ResolveDropsPlaceholders"        a seeded defect: the rebuild after resolution forgets unresolved placeholders
 DeviationNames == {"StaleCacheOnReplace", "IntoExternLast", "HashOrderedFrames",
-                   "ExpandSeqDropsCalibrationQubits", "CloneDropsCalibrationQubits"}
+                   "ExpandSeqDropsCalibrationQubits", "CloneDropsCalibrationQubits", "ResolveDropsPlaceholders"}
 ASSUME Deviations \subseteq DeviationNames
 
-Instr(id, k, key, text, qs) == [id |-> id, k |-> k, key |-> key, text |-> text, qs |-> qs]
+\* g: for a plain gate application (no parameters, no modifiers) Some([name, qubits]) -- the only instructions whose
+\*    qubits resolve_placeholders can rewrite in the generated programs; None for everything else
+Instr(id, k, key, text, qs) == [id |-> id, k |-> k, key |-> key, text |-> text, qs |-> qs, g |-> None]
+
+\* qubits: fixed, variable, or a placeholder (identity semantics: QPh(n) is the n-th placeholder the history created)
+QText(q) == CASE q.t = "fixed" -> ToString(q.n)
+              [] q.t = "var"   -> q.s
+              [] q.t = "ph"    -> "{ph" \o ToString(q.id) \o "}"
+RECURSIVE QTexts(_)
+QTexts(qs) == IF qs = <<>> THEN "" ELSE " " \o QText(Head(qs)) \o QTexts(Tail(qs))
+\* a plain gate application: its identity is its text
+GateOn(name, qubits) == LET text == name \o QTexts(qubits) IN
+    [id |-> text, k |-> "Body", key |-> "-", text |-> text, qs |-> Range(qubits),
+     g |-> Some([name |-> name, qubits |-> qubits])]
 
 \* the order of Program::to_instructions
 Tables == <<"Extern", "Declare", "DefFrame", "DefWaveform", "DefCal", "DefCalMeasure", "DefGate", "DefCircuit">>
@@ -147,11 +161,37 @@ CloneNoBody(a, D) == [a EXCEPT !.body = <<>>,
                                !.log  = SelectSeq(a.log, IsDef),
                                !.excl = {}]
 
-\* Program::resolve_placeholders: rewrites body instructions in place, then rebuilds the cache.
-\* newBody is the resolved body (= the old body for a placeholder-free program).
-ResolveP(p, newBody) ==
-  LET q == [p EXCEPT !.body = newBody] IN
-  [q EXCEPT !.used = QubitsOfListing(q), !.log = SelectSeq(p.log, IsDef) \o newBody, !.excl = {}]
+\* Program::resolve_placeholders{,_with_custom_resolvers}: every body instruction is rewritten in place by the
+\* qubit resolver (a partial map from placeholders to fixed indices; an unmapped placeholder stays), definitions
+\* (calibration bodies included) are not touched, then the cache is rebuilt from the listing.
+\* A resolver is a sequence of [ph |-> id, n |-> index] records.
+Mapped(m, q) == q.t = "ph" /\ \E k \in DOMAIN m : m[k].ph = q.id
+SubstQ(m, q) == IF Mapped(m, q) THEN Fixed(m[CHOOSE k \in DOMAIN m : m[k].ph = q.id].n) ELSE q
+ResolveI(i, m) == IF IsSome(i.g) /\ \E n \in DOMAIN i.g.some.qubits : Mapped(m, i.g.some.qubits[n])
+                  THEN GateOn(i.g.some.name, [n \in DOMAIN i.g.some.qubits |-> SubstQ(m, i.g.some.qubits[n])])
+                  ELSE i
+ResolveP(p, m) ==
+  LET newBody == [n \in DOMAIN p.body |-> ResolveI(p.body[n], m)]
+      q == [p EXCEPT !.body = newBody] IN
+  [q EXCEPT !.used = IF "ResolveDropsPlaceholders" \in Deviations
+                     THEN {x \in QubitsOfListing(q) : x.t # "ph"} ELSE QubitsOfListing(q),
+            !.log = SelectSeq(p.log, IsDef) \o newBody, !.excl = {}]
+\* the default qubit resolver (default_qubit_resolver): the placeholders of the body in order of first appearance
+\* get the smallest indices no body instruction uses as a fixed qubit
+RECURSIVE PhsOf(_, _)
+PhsOf(qs, seen) == IF qs = <<>> THEN <<>> ELSE
+                   LET q == Head(qs) IN
+                   IF q.t = "ph" /\ q.id \notin seen THEN <<q.id>> \o PhsOf(Tail(qs), seen \cup {q.id})
+                   ELSE PhsOf(Tail(qs), seen)
+BodyQubitSeq(body) == FlattenSeq([n \in DOMAIN body |-> IF IsSome(body[n].g) THEN body[n].g.some.qubits ELSE <<>>])
+RECURSIVE FreeFrom(_, _, _)
+FreeFrom(k, taken, n) == IF n = 0 THEN <<>> ELSE
+                         IF k \in taken THEN FreeFrom(k + 1, taken, n) ELSE <<k>> \o FreeFrom(k + 1, taken, n - 1)
+DefaultResolver(p) ==
+  LET phs == PhsOf(BodyQubitSeq(p.body), {})
+      taken == {q.n : q \in {x \in QubitsOfSeq(p.body) : x.t = "fixed"}}
+      free == FreeFrom(0, taken, Len(phs))
+  IN [k \in DOMAIN phs |-> [ph |-> phs[k], n |-> free[k]]]
 
 \* Program::filter_instructions = from_instructions(to_instructions().filter(pred)); the predicates modelled
 \* drop whole kinds
@@ -161,14 +201,15 @@ FilterP(a, drop, D) == FromSeq(EmptyProg, SelectSeq(Listing(a), LAMBDA i : i.k \
 \* expansion, frame matching): expand_calibrations, simplify, wrap_in_loop(n >= 2), expand_defgate_sequences.
 \* The listing is supplied (by the real code, in a recorded trace); the model says how the result *value* is
 \* laid out from it (routing of every instruction) and what its cache must be.
-CloneFamily == {"ExpandCalibrations", "Simplify", "WrapInLoop"}
-SuppliedNames == CloneFamily \cup {"ExpandDefGateSequences"}
+CloneFamily == {"ExpandCalibrations", "ExpandCalibrationsWithSourceMap", "Simplify", "WrapInLoop"}
+SeqFamily == {"ExpandDefGateSequences", "ExpandDefGateSequencesWithSourceMap"}
+SuppliedNames == CloneFamily \cup SeqFamily \cup {"Dagger"}
 RECURSIVE RouteAll(_, _)
 RouteAll(p, s) == IF s = <<>> THEN p ELSE RouteAll(Route(p, Head(s)), Tail(s))
 SuppliedP(name, listing, D) ==
   LET q == [RouteAll(EmptyProg, listing) EXCEPT !.log = listing]
       bodyOnly == \/ name \in CloneFamily /\ "CloneDropsCalibrationQubits" \in D
-                  \/ name = "ExpandDefGateSequences" /\ "ExpandSeqDropsCalibrationQubits" \in D
+                  \/ name \in SeqFamily /\ "ExpandSeqDropsCalibrationQubits" \in D
   IN [q EXCEPT !.used = IF bodyOnly THEN QubitsOfSeq(q.body) ELSE QubitsOfListing(q)]
 
 \* what every such operation keeps of its source (frame conditions; informational in trace validation)
@@ -177,7 +218,7 @@ IsSubSeq(s, t) == \E f \in [DOMAIN s -> DOMAIN t] :
                      /\ \A n, m \in DOMAIN s : n < m => f[n] < f[m]
 IsPrefix(s, t) == Len(s) <= Len(t) /\ SubSeq(t, 1, Len(s)) = s
 SuppliedFrameOk(name, src, res) ==
-  CASE name = "ExpandCalibrations" ->
+  CASE name \in {"ExpandCalibrations", "ExpandCalibrationsWithSourceMap"} ->
          /\ \A t \in TableSet \ {"Declare"} : Ids(res.tbl[t]) = Ids(src.tbl[t])
          /\ IsPrefix(Keys(src.tbl["Declare"]), Keys(res.tbl["Declare"]))
     [] name = "Simplify" ->
@@ -188,7 +229,10 @@ SuppliedFrameOk(name, src, res) ==
          /\ \A t \in TableSet \ {"Declare"} : Ids(res.tbl[t]) = Ids(src.tbl[t])
          /\ Len(res.body) = Len(src.body) + 4          \* MOVE, LABEL, body, SUB, JUMP-WHEN (DECLARE is hoisted)
          /\ Ids(SubSeq(res.body, 3, Len(src.body) + 2)) = Ids(src.body)
-    [] name = "ExpandDefGateSequences" ->
+    [] name = "Dagger" ->          \* Program::new() + the daggered gates in reverse
+         /\ \A t \in TableSet : res.tbl[t] = <<>> /\ src.tbl[t] = <<>>
+         /\ Len(res.body) = Len(src.body)
+    [] name \in SeqFamily ->
          /\ \A t \in TableSet \ {"DefGate"} : Ids(res.tbl[t]) = Ids(src.tbl[t])
          /\ IsSubSeq(Ids(res.tbl["DefGate"]), Ids(src.tbl["DefGate"]))
     [] OTHER -> TRUE
@@ -205,7 +249,7 @@ Apply(R, o, D) ==
     [] o.ev = "AddAssign"        -> [R EXCEPT ![o.dst] = CatProg(R[o.dst], R[o.b])]
     [] o.ev = "Clone"            -> [R EXCEPT ![o.dst] = R[o.a]]
     [] o.ev = "CloneWithoutBody" -> [R EXCEPT ![o.dst] = CloneNoBody(R[o.a], D)]
-    [] o.ev = "Resolve"          -> [R EXCEPT ![o.dst] = ResolveP(R[o.dst], o.body)]
+    [] o.ev = "Resolve"          -> [R EXCEPT ![o.dst] = ResolveP(R[o.dst], o.map)]
     [] o.ev = "Filter"           -> [R EXCEPT ![o.dst] = FilterP(R[o.a], Range(o.drop), D)]
     [] o.ev = "Supplied"         -> [R EXCEPT ![o.dst] = SuppliedP(o.name, o.listing, D)]
     [] o.ev = "Opaque"           -> [R EXCEPT ![o.dst] = OpaqueProg]
@@ -219,12 +263,15 @@ Init == regs = [r \in Regs |-> EmptyProg]
 New(r)                     == Step([ev |-> "New", dst |-> r])
 AddInstruction(r, i)       == Step([ev |-> "Add", dst |-> r, i |-> i])
 AddInstructions(r, s)      == Step([ev |-> "AddMany", dst |-> r, is |-> s])
-FromInstructions(r, s)     == Step([ev |-> "FromInstructions", dst |-> r, is |-> s])
+FromInstructions(r, s)     == Step([ev |-> "FromInstructions", dst |-> r, is |-> s])   \* also From<Vec<_>> and FromStr
 Concat(dst, a, b)          == Step([ev |-> "Concat", dst |-> dst, a |-> a, b |-> b])       \* dst = a.clone() + b.clone()
 AddAssign(a, b)            == Step([ev |-> "AddAssign", dst |-> a, b |-> b])               \* a += b.clone()
 Clone(dst, a)              == Step([ev |-> "Clone", dst |-> dst, a |-> a])
 CloneWithoutBody(dst, a)   == Step([ev |-> "CloneWithoutBody", dst |-> dst, a |-> a])
-ResolvePlaceholders(r, nb) == Step([ev |-> "Resolve", dst |-> r, body |-> nb])
+\* resolve_placeholders(): the resolver is the default one (in a recorded trace: the choices the real code made)
+ResolvePlaceholders(r, m)  == Step([ev |-> "Resolve", mode |-> "default", dst |-> r, map |-> m])
+\* resolve_placeholders_with_custom_resolvers(default target resolver, m): any partial map
+ResolvePlaceholdersWith(r, m) == Step([ev |-> "Resolve", mode |-> "custom", dst |-> r, map |-> m])
 FilterInstructions(dst, a, drop) == Step([ev |-> "Filter", dst |-> dst, a |-> a, drop |-> drop])
 SuppliedResult(name, dst, a, listing) ==
     Step([ev |-> "Supplied", name |-> name, dst |-> dst, a |-> a, listing |-> listing])
@@ -232,6 +279,9 @@ ExpandCalibrations(dst, a, listing)     == SuppliedResult("ExpandCalibrations", 
 Simplify(dst, a, listing)               == SuppliedResult("Simplify", dst, a, listing)
 WrapInLoop(dst, a, listing)             == SuppliedResult("WrapInLoop", dst, a, listing)
 ExpandDefGateSequences(dst, a, listing) == SuppliedResult("ExpandDefGateSequences", dst, a, listing)
+ExpandCalibrationsWithSourceMap(dst, a, listing)     == SuppliedResult("ExpandCalibrationsWithSourceMap", dst, a, listing)
+ExpandDefGateSequencesWithSourceMap(dst, a, listing) == SuppliedResult("ExpandDefGateSequencesWithSourceMap", dst, a, listing)
+Dagger(dst, a, listing)                              == SuppliedResult("Dagger", dst, a, listing)
 \* result not known to the generator (model-checking runs only): the register becomes opaque
 Unknown(dst)               == Step([ev |-> "Opaque", dst |-> dst])
 
